@@ -231,7 +231,19 @@ def check_handle(P, R):
         app = [c for c in walk_shallow(ah.node) if isinstance(c, ast.Call) and call_attr(c) == 'append']
         ok = bool(ins) and bool(app) and ah.cfg.edge_dominates(tn, 'true', ah.cfg.node_of_stmt(ins[0])[0]) and \
             ah.cfg.edge_dominates(tn, 'false', ah.cfg.node_of_stmt(app[0])[0])
-    R.ob('C03.b', ah, tests[0].ast if tests else ah.node, ok, text='reversed hooks inserted at 0, others appended', detail='' if ok else
+    if not ok:
+        # one insert at a computed position: `insert(0 if name in reversed else len(hooks), func)`
+        for c in [c for c in walk_shallow(ah.node) if isinstance(c, ast.Call) and call_attr(c) == 'insert' and len(c.args) == 2]:
+            cn_ = ah.cfg.node_of_stmt(c)[0]
+            pos = T.expand(ah, c.args[0], cn_)
+            recv = T.xsrc(ah, c.func.value, cn_)
+            if isinstance(pos, ast.IfExp) and 'hook_reversed' in src(pos.test):
+                neg_ = isinstance(pos.test, ast.UnaryOp) or (isinstance(pos.test, ast.Compare) and isinstance(pos.test.ops[0], ast.NotIn))
+                first_, last_ = (pos.orelse, pos.body) if neg_ else (pos.body, pos.orelse)
+                ok = is_const(first_, 0) and isinstance(last_, ast.Call) and dotted(last_.func) == 'len' and \
+                    T.xsrc(ah, last_.args[0], cn_) == recv
+                tests = tests or [cn_]
+    R.ob('C03.b', ah, (tests[0].ast if tests and tests[0].ast is not None else ah.node) if tests else ah.node, ok, text='reversed hooks inserted at 0, others appended', detail='' if ok else
          'add_hook does not prepend reversed hooks / append the others')
     em = P.func(f'{OM}:Ombott.emit')
     s = src(em.node)
